@@ -663,7 +663,7 @@ def _run_bindings(ctx, rng, quick, pool):
         if quick:
             call_cap = 4 if size < 30000 else (2 if size < 65000 else (1 if size < 120000 else 0))
         else:
-            call_cap = max(6, int(250 / max(1.0, size / 20000.0)))
+            call_cap = max(5, int(150 / max(1.0, size / 20000.0)))
         calls = 0
         refs = [an for an, a in gene.alleles.items() if a.cn_config == "1" and not a.func_muts]
         ref_major = refs[0] if len(refs) == 1 else None
@@ -705,7 +705,7 @@ def _run_bindings(ctx, rng, quick, pool):
             ni = sum(1 for c in uniq if interesting(c))
             pick = uniq[: min(ni, per_gene - 2)] + uniq[ni: ni + max(2, per_gene - min(ni, per_gene - 2))]
         else:
-            cap = 40 if label in ("dpyd", "ryr1") else 150
+            cap = 30 if label in ("dpyd", "ryr1") else 120
             pick = uniq[:cap]
         for level, major, name, rws in pick:
             for zyg in (["het"] if quick and rng.random() < 0.7 else ["het", "hom"]):
